@@ -159,6 +159,27 @@ theorem remove_by_malformed_txid (s : State) (txid : Bytes) (i : Nat) (h : txid.
 
 /-! ## fees -/
 
+open BtcVerif.Model.Fee BtcVerif.Gen.Guards in
+/-- `NewNaivePrevOutValueFunc`: for a transaction that decodes, the answer is the value of the output the
+outpoint names when the index is in range and an error otherwise — the index test of the source (the
+regenerated guard of the function literal) lets no out-of-range index through to the slice access. -/
+theorem naive_prevout_value (getTxHex : Bytes → Option Bytes) (p : PrevOut) (hi : p.index < 4294967296)
+    (txHex raw rest : Bytes) (t : Tx)
+    (h1 : getTxHex (hexEncode p.hash.reverse) = some txHex) (h2 : txHex.isEmpty = false)
+    (h3 : Utxo.hexDecode txHex = some raw) (h4 : decTx raw = .ok (t, rest)) :
+    naivePrevOutValue getTxHex p =
+      match t.outputs[p.index]? with
+      | some o => .ok o.value
+      | none => .err := by
+  have hw : BtcVerif.Gen.wrapS 18446744073709551616 (p.index : Int) = (p.index : Int) :=
+    BtcVerif.Gen.wrapS_of_small 18446744073709551616 (p.index : Int) (Int.natCast_nonneg p.index) (by omega)
+  simp only [naivePrevOutValue, h1, h2, h3, h4, Bool.false_eq_true, if_false,
+    feecalc_NewNaivePrevOutValueFunc_lit0_1, hw, ge_iff_le, Int.ofNat_le, decide_eq_true_eq]
+  by_cases h : t.outputs.length ≤ p.index
+  · simp [h, List.getElem?_eq_none h]
+  · have hlt : p.index < t.outputs.length := Nat.lt_of_not_le h
+    simp [h, List.getElem?_eq_getElem hlt]
+
 open BtcVerif.Model.Fee BtcVerif.Proofs.Fee in
 /-- In the monetary range (both sums below 2^64) the totals are the exact sums and the fee is inputs
     minus outputs, or the error when the outputs exceed the inputs. -/
